@@ -1,6 +1,7 @@
 package eng
 
 import (
+	"strings"
 	"go/ast"
 	"go/token"
 	"go/types"
@@ -76,10 +77,11 @@ func (env *specEnv) wildParts(ex ast.Expr) (SliceV, types.Type, []int, bool) {
 	return base, sl.Elem(), idx, true
 }
 
-func (x *exec) assumeEntryMonitors(s *State, blk *Block) {}
+func (x *exec) assumeEntryMonitors(s *State, blk *Block) { x.assumeEntryMonitorsImpl(s, blk) }
 
 func (x *exec) checkExitMonitors(s *State, blk *Block, pos token.Pos, site string) {
 	c := x.e.C
+	x.checkExitLocked(s, pos, site)
 	// every lock taken by the function is released (or was held on entry by contract)
 	for k, h := range s.held {
 		if h.IsFalse() {
@@ -88,7 +90,7 @@ func (x *exec) checkExitMonitors(s *State, blk *Block, pos token.Pos, site strin
 		if blk != nil {
 			skip := false
 			for _, cl := range blk.Of("locked") {
-				if trim(cl.Text) == k || trim(cl.Text) == "*" {
+				if f := strings.Fields(cl.Text); len(f) > 0 && (f[0] == k || f[0] == "*") {
 					skip = true
 				}
 			}
@@ -100,7 +102,3 @@ func (x *exec) checkExitMonitors(s *State, blk *Block, pos token.Pos, site strin
 	}
 }
 
-func (x *exec) monitorAcquireImpl(s *State, p PtrV, k string, write bool, pos token.Pos) {}
-func (x *exec) monitorReleaseImpl(s *State, p PtrV, k string, write bool, pos token.Pos) {}
-func (x *exec) monitorAccessImpl(s *State, p PtrV, write bool, pos token.Pos)          {}
-func (x *exec) monitorHeldForImpl(s *State, p PtrV) bool                               { return false }
